@@ -12,6 +12,17 @@ from . import oracles as O
 LD = np.longdouble
 
 
+def holds_float32(fitter):
+    """True when the model fluxes the fitter holds are single precision (observed on the object, not inferred from the package
+    format or the memmap switch: which combinations use float32 storage is an implementation choice); unknown counts as True"""
+    try:
+        fl = fitter.models.fluxes
+        fl = getattr(fl, 'value', fl)
+        return np.asarray(fl).dtype.itemsize < 8
+    except Exception:
+        return True
+
+
 class GridTruth(object):
     """Truth for one fitter.
 
